@@ -22,7 +22,7 @@ for p in props:
                 "text": s.get("level_text", "Bounded symbolic model checking of the real go/ssa code: every path of the harness over symbolic inputs is explored, path feasibility and each assertion (pc AND NOT assertion) are decided by an SMT solver; unsat on every path = holds for all input values within the stated bounds."),
                 "design_ref": f"DESIGN.md section 5 ({pid})"
             },
-            "level_note": "Bounds: quick: " + s.get("bounds", {}).get("quick", "") + " | thorough: " + s.get("bounds", {}).get("thorough", "") + " | Assumes: " + "; ".join(s.get("assumptions", [])) + " | Trusted: go/ssa construction (x/tools v0.29.0), the vsym interpreter and its intrinsics (validated by native witness replay), z3 4.8.12.",
+            "level_note": "Bounds: quick: " + s.get("bounds", {}).get("quick", "") + " | thorough: " + s.get("bounds", {}).get("thorough", "") + " | Assumes: " + "; ".join(s.get("assumptions", [])) + " | Trusted: go/ssa construction (x/tools v0.29.0), the vsym interpreter and its intrinsics (validated by native witness replay), z3 5.1.0 / cvc5 1.0.",
             "technique": s.get("technique", "SMT-based symbolic execution of go/ssa (vsym + z3)")
         })
     else:
@@ -38,7 +38,7 @@ m = {
         "add_only": True
     },
     "engines": [{"name": "vsym", "path": "engine", "serves_properties": [c["property_id"] for c in checks],
-                 "kind_free_text": "symbolic executor for go/ssa written for this task; SMT back end z3 4.8.12 over one long-lived process per worker"}],
+                 "kind_free_text": "symbolic executor for go/ssa written for this task; SMT back end z3 5.1.0 (z3-new -in; cvc5 --incremental per harness where stated) over one long-lived process per worker"}],
     "checks": checks,
     "not_applicable": na,
     "notes": "All checks are decided by solver verdicts over symbolic inputs of the real code (regenerated from /repo on every run). See DESIGN.md."
